@@ -97,13 +97,28 @@ func Restore(r io.Reader, dstPath string) (int64, error) {
 			}
 			walFiles = append(walFiles, walPath)
 		}
+		if n, err := expectEOF(r); err != nil {
+			return totalRead + n, err
+		}
 		if err := db.ReplayWAL(dstPath, walFiles, false); err != nil {
 			return totalRead, fmt.Errorf("checkpointing WALs: %w", err)
 		}
 		for _, wf := range walFiles {
 			os.Remove(wf)
 		}
+	} else if n, err := expectEOF(r); err != nil {
+		return totalRead + n, err
 	}
 
 	return totalRead, nil
+}
+
+// expectEOF checks that r has no more data. The stream must end after the
+// last file described by its header. It returns the number of bytes read.
+func expectEOF(r io.Reader) (int64, error) {
+	var b [1]byte
+	if n, _ := io.ReadFull(r, b[:]); n > 0 {
+		return int64(n), ErrUnexpectedData
+	}
+	return 0, nil
 }
